@@ -530,6 +530,159 @@ Section RosInvariants.
     match goal with |- context [r_state ?r] => destruct (r_state r) eqn:Est end;
       intros C; try discriminate; try (apply HC; reflexivity). contradiction.
   Qed.
+
+  (* ---------------- C07: no step is started once more than max_number_of_steps_ attempts have been made ---------------- *)
+  (* steps_bounded n tr: with n attempts made before tr, every step start in tr has at most max_number_of_steps_ attempts before it *)
+  Fixpoint steps_bounded (n : nat) (tr : list event) : Prop :=
+    match tr with
+    | [] => True
+    | EvStep _ _ :: r => n <= p_max_steps p /\ steps_bounded n r
+    | EvAttempt _ _ _ _ _ _ :: r => steps_bounded (S n) r
+    | _ :: r => steps_bounded n r
+    end.
+
+  Lemma steps_bounded_app a : forall n b, steps_bounded n (a ++ b) <-> steps_bounded n a /\ steps_bounded (n + cnt isA a) b.
+  Proof.
+    induction a as [|e a IH]; intros n b.
+    - cbn [app steps_bounded]. rewrite cnt_nil, Nat.add_0_r. tauto.
+    - rewrite <- app_comm_cons. rewrite cnt_cons.
+      destruct e; cbn [steps_bounded isA]; rewrite IH;
+        try (replace (n + (0 + cnt isA a)) with (n + cnt isA a) by lia);
+        try (replace (n + (1 + cnt isA a)) with (S n + cnt isA a) by lia); tauto.
+  Qed.
+
+  Definition not_step (e : event) : Prop := match e with EvStep _ _ => False | _ => True end.
+  Lemma no_step_bounded tr : Forall not_step tr -> forall n, steps_bounded n tr.
+  Proof.
+    induction tr as [|e tr IH]; intros HF n; [exact I|].
+    inversion HF as [|? ? He Ht]; subst. destruct e; cbn [steps_bounded not_step] in *; try (apply IH; exact Ht). contradiction.
+  Qed.
+
+  Lemma stages_no_step H s s' ev nf : stages H s = (s', ev, nf) -> Forall not_step ev.
+  Proof.
+    unfold stages_loop.
+    assert (G : forall l (acc : rstate * list event * nat) s' ev nf,
+               fold_left (fun (acc : rstate * list event * nat) stage =>
+                  let '(s, ev, nf) := acc in
+                  let '(s', ev', nf') := stage1 H s (sJac s) (sLU s) stage in
+                  (s', ev ++ ev', nf + nf')) l acc = (s', ev, nf) ->
+               Forall not_step (snd (fst acc)) -> Forall not_step ev).
+    { induction l as [|k l IH]; intros [[s0 ev0] nf0] s1 ev1 nf1 E Hacc; cbn [fold_left] in E.
+      - inversion E; subst. exact Hacc.
+      - destruct (stage1 H s0 (sJac s0) (sLU s0) k) as [[s2 ev2] nf2] eqn:E2.
+        apply (IH _ _ _ _ E). cbn [fst snd] in *. apply Forall_app. split; [exact Hacc|].
+        unfold stage_step in E2.
+        destruct (k =? 0); [|destruct (nth k (p_newf p) false)]; inversion E2; subst; repeat constructor. }
+    intros E. apply (G _ _ _ _ _ E). constructor.
+  Qed.
+
+  Definition SInv (l : loop_state) (tr : list event) : Prop := counters_ok (l_stats l) tr /\ steps_bounded 0 tr.
+
+  Lemma iter_steps_bounded time_step h_max l tr :
+    SInv l tr ->
+    match iter time_step h_max l with
+    | inr (l', ev) => SInv l' (tr ++ ev)
+    | inl (st, t, sts, s, ev) => steps_bounded 0 (tr ++ ev)
+    end.
+  Proof.
+    intros [HC HS].
+    pose proof (iter_counters time_step h_max l tr HC) as HC'.
+    assert (Hn : number_of_steps (l_stats l) = cnt isA tr) by (destruct HC as (_ & _ & _ & _ & H5 & _); exact H5).
+    assert (G : forall ev, steps_bounded (cnt isA tr) ev -> steps_bounded 0 (tr ++ ev)).
+    { intros ev Hev. apply steps_bounded_app. split; [exact HS | exact Hev]. }
+    destruct (iter time_step h_max l) as [[[[[st t] sts] s] ev]|[l' ev]] eqn:E; unfold ros_iter in E;
+      [|split; [exact HC'|]]; apply G;
+      (destruct (l_fresh l);
+       [ destruct (negb (leb _ _)); [try discriminate; inversion E; subst; exact I|];
+         destruct (_ <? _) eqn:Emax; [try discriminate; inversion E; subst; exact I|];
+         destruct (absorbed _ _ || leb _ _); [try discriminate; inversion E; subst; exact I|];
+         apply Nat.ltb_ge in Emax | ]);
+      reduce_iter E;
+      match type of E with context [stages ?H ?s1] => destruct (stages H s1) as [[s2 evs] nf] eqn:Est end;
+      pose proof (no_step_bounded _ (stages_no_step _ _ _ _ _ Est)) as Hns;
+      reduce_iter E; split_ifs E; inversion E; subst; clear E;
+      repeat (rewrite steps_bounded_app || cbn [steps_bounded app]);
+      repeat split; try exact I; try apply Hns; lia.
+  Qed.
+
+  Theorem ros_no_step_after_max_steps fuel time_step s : steps_bounded 0 (r_trace (solve fuel time_step s)).
+  Proof.
+    unfold ros_solve. cbv zeta. cbn [r_trace].
+    match goal with |- context [loop fuel time_step ?hm ?l0 []] =>
+      pose proof (loop_invariant time_step hm SInv (fun _ _ _ _ tr => steps_bounded 0 tr)) as LI;
+      specialize (LI (fun l tr l' ev HI E => ltac:(pose proof (iter_steps_bounded time_step hm l tr HI) as X; rewrite E in X; exact X)));
+      specialize (LI (fun l tr st t sts s0 ev HI E => ltac:(pose proof (iter_steps_bounded time_step hm l tr HI) as X; rewrite E in X; exact X)));
+      specialize (LI (fun l tr HI => proj2 HI));
+      apply (LI fuel l0 [])
+    end.
+    split; [unfold counters_ok; cbn; repeat split; lia | exact I].
+  Qed.
+
+  Corollary ros_attempts_before_every_step fuel time_step s a t H b :
+    r_trace (solve fuel time_step s) = a ++ EvStep t H :: b -> cnt isA a <= p_max_steps p.
+  Proof.
+    intros E. pose proof (ros_no_step_after_max_steps fuel time_step s) as HB. rewrite E in HB.
+    apply steps_bounded_app in HB. destruct HB as [_ HB]. cbn [steps_bounded] in HB. destruct HB as [HB _]. lia.
+  Qed.
+
+  (* ---------------- C06: the status returned is the one whose condition occurred ---------------- *)
+  Definition status_reason (time_step : T) (st : solver_state) (t : T) (sts : stats) (tr : list event) : Prop :=
+    match st with
+    | Converged => leb (nadd N (nsub N t time_step) (p_round_off p)) (n0 N) = false     (* the end of the interval was reached *)
+    | ConvergenceExceededMaxSteps => p_max_steps p < number_of_steps sts
+    | StepSizeTooSmall => exists H, absorbed t H || leb H (p_round_off p) = true
+    | NaNDetected => exists H e y yn ye, In (EvAttempt H e false y yn ye) tr /\ isnan e = true
+    | InfDetected => exists H e y yn ye, In (EvAttempt H e false y yn ye) tr /\ isinf e = true
+    | OutOfFuel => True
+    | _ => False
+    end.
+
+  Ltac split_ifs_eqn E :=
+    repeat match type of E with
+           | context [if ?b then _ else _] => destruct b eqn:?
+           end.
+
+  Ltac find_in := first [ left; reflexivity | apply in_or_app; right; find_in | right; find_in ].
+
+  Lemma iter_status time_step h_max l st t sts s ev :
+    iter time_step h_max l = inl (st, t, sts, s, ev) -> status_reason time_step st t sts ev.
+  Proof.
+    intros E. unfold ros_iter in E.
+    destruct (l_fresh l);
+      [ destruct (negb (leb _ _)) eqn:E1;
+          [inversion E; subst; cbn [status_reason]; apply Bool.negb_true_iff; exact E1|];
+        destruct (_ <? _) eqn:E2; [inversion E; subst; cbn [status_reason]; apply Nat.ltb_lt; exact E2|];
+        destruct (absorbed _ _ || leb _ _) eqn:E3; [inversion E; subst; cbn [status_reason]; eexists; exact E3|] | ];
+      reduce_iter E;
+      match type of E with context [stages ?H ?s1] => destruct (stages H s1) as [[s2 evs] nf] eqn:Est end;
+      reduce_iter E; split_ifs_eqn E; inversion E; subst; cbn [status_reason];
+      do 5 eexists; (split; [find_in | assumption]).
+  Qed.
+
+  Theorem ros_status_truthful fuel time_step s :
+    let r := solve fuel time_step s in
+    status_reason time_step (r_state r) (r_final_time r) (r_stats r) (r_trace r).
+  Proof.
+    unfold ros_solve. cbv zeta. cbn [r_state r_trace r_final_time r_stats].
+    match goal with |- context [loop fuel time_step ?hm ?l0 []] =>
+      pose proof (loop_invariant time_step hm (fun _ _ => True)
+                    (fun st t sts _ tr => st <> Running /\ status_reason time_step st t sts tr)) as LI;
+      assert (S1 : forall l (tr : list event) l' ev, True -> iter time_step hm l = inr (l', ev) -> True) by (intros; exact I);
+      assert (S2 : forall l (tr : list event) st t sts s0 ev, True -> iter time_step hm l = inl (st, t, sts, s0, ev) ->
+                     st <> Running /\ status_reason time_step st t sts (tr ++ ev));
+      [ intros l tr st t sts s0 ev _ E; split; [exact (proj1 (iter_never_running time_step hm l st t sts s0 ev E))|];
+        pose proof (iter_status time_step hm l st t sts s0 ev E) as X;
+        destruct st; cbn [status_reason] in *; try exact X;
+        destruct X as (H & e & y & yn & ye & Hin & Hb); exists H, e, y, yn, ye; (split; [apply in_or_app; right; exact Hin | exact Hb]) |];
+      assert (S3 : forall (l : loop_state) (tr : list event), True ->
+                     OutOfFuel <> Running /\ status_reason time_step OutOfFuel (l_t l) (l_stats l) tr)
+        by (intros; split; [discriminate | exact I]);
+      specialize (LI S1 S2 S3 fuel l0 [] I)
+    end.
+    cbv zeta in LI. destruct LI as [NR HR].
+    match goal with |- context [r_state ?r] => destruct (r_state r) eqn:Est end; cbn [status_reason] in *; try exact HR.
+    contradiction.
+  Qed.
 End RosInvariants.
 
 (* ====================================================================================== *)
@@ -640,6 +793,34 @@ Section BEInvariants.
       apply (LI fuel l0 [])
     end.
     unfold be_ok, bcnt; cbn. repeat split; auto.
+  Qed.
+
+  (* ---------------- C06: Converged is returned only once the loop guard t < time_step has failed ---------------- *)
+  Lemma be_iter_converged time_step l st t sts s ev :
+    iter time_step l = inl (st, t, sts, s, ev) -> st = Converged -> ltb t time_step = false.
+  Proof.
+    intros E. unfold be_iter in E.
+    destruct (b_fresh l && negb (ltb (b_t l) time_step)) eqn:E1.
+    - inversion E; subst. intros _. apply andb_prop in E1. destruct E1 as [_ E1]. apply Bool.negb_true_iff in E1. exact E1.
+    - repeat match type of E with context [if ?b then _ else _] => destruct b end; inversion E; subst; intros C; discriminate C.
+  Qed.
+
+  Theorem be_converged_means_interval_covered fuel time_step s :
+    let r := solve fuel time_step s in
+    br_state r = Converged -> ltb (br_final_time r) time_step = false.
+  Proof.
+    unfold be_solve. cbv zeta.
+    match goal with |- context [loop fuel time_step ?l0 []] =>
+      pose proof (be_loop_invariant time_step (fun _ _ => True)
+                    (fun st t _ _ _ => st = Converged -> ltb t time_step = false)) as LI;
+      assert (S1 : forall l (tr : list be_event) l' ev, True -> iter time_step l = inr (l', ev) -> True) by (intros; exact I);
+      assert (S2 : forall l (tr : list be_event) st t sts s0 ev, True -> iter time_step l = inl (st, t, sts, s0, ev) ->
+                     st = Converged -> ltb t time_step = false)
+        by (intros l tr st t sts s0 ev _ E; exact (be_iter_converged time_step l st t sts s0 ev E));
+      assert (S3 : forall (l : be_loop_state) (tr : list be_event), True -> OutOfFuel = Converged -> ltb (b_t l) time_step = false)
+        by (intros l tr _ C; discriminate C);
+      exact (LI S1 S2 S3 fuel l0 [] I)
+    end.
   Qed.
 
   (* ---------------- C11: the scratch members of the State do not influence backward Euler ---------------- *)
